@@ -1,3 +1,405 @@
-/- C17: property theorems (stub — not built yet) -/
+import RSVerif.Model.DecodeMode
+import RSVerif.Lemmas.DecodeMode
+import RSVerif.Model.DecodeModeLoad
+/-
+C17 — Decode mode prints every element of the RDB, recoverably.
+Property theorems only (helper lemmas live in RSVerif.Lemmas.DecodeMode).
+
+Reading guide.  `Spec.DecodeMode`: items of a file and the records (`SRecord`) the property demands for them.
+`DecodeMode` (model of src/redis-shake/decode.go): `blockOf` = the JSON objects one `decoderMain` iteration
+marshals for one entry and sends with ONE channel send, `none` = it calls `log.Panic*` (= `os.Exit(1)`);
+`parseRecord` = what a consumer reads back from a line (binary data only from the base64 `*64` fields);
+`Pipe.Reach cfg block entries n s` = state `s` is reachable under SOME interleaving of the loader goroutine,
+the `n` worker goroutines, the closer and the writer goroutine.  Every theorem about `Reach` therefore
+quantifies over ALL schedules, all `n`, all channel capacities and all inputs.
+
+What is NOT provable of the code as it stands (deviation D19), and is therefore stated `_partial`:
+  (a) a sorted-set score that is ±Inf or NaN makes `json.Marshal` fail → `log.PanicError` → the process exits,
+      the rest of the file is never printed (`counterexample_score_nonfinite`);
+  (b) the loader splits a hash above 16 MiB into chunk entries whose payloads are not valid DUMP values
+      (first chunk: member count of the whole hash but only part of the pairs; continuation chunks: no count),
+      `rdb.DecodeDump` fails (or mis-parses) → abort or wrong lines (`counterexample_chunked_hash*`).
+-/
 namespace RSVerif.Properties.C17
+open RSVerif RSVerif.Spec.DecodeMode RSVerif.DecodeMode RSVerif.DecodeMode.Pipe
+
+/-! ### 1. base64: the `*64` fields decode to the exact original bytes -/
+
+/-- every byte string, every length (mod 3 = 0, 1, 2), non-printable and non-UTF-8 included. -/
+theorem b64_roundtrip : ∀ bs : Bytes, b64dec (b64enc bs) = some bs := DecodeMode.b64_roundtrip
+
+example : b64enc (ascii "fo") = ascii "Zm8=" ∧ b64enc (ascii "f") = ascii "Zg==" ∧
+    b64enc [0xff, 0xfe, 0x00] = ascii "//4A" := by decide
+example : b64dec (ascii "Zm9v") = some (ascii "foo") ∧ b64dec (ascii "Zm9") = none ∧
+    b64dec (ascii "Z=9v") = none := by decide
+
+/-- the encoder only emits alphabet characters and `=`: nothing JSON has to escape lossily. -/
+theorem b64enc_injective (a b : Bytes) (h : b64enc a = b64enc b) : a = b := by
+  have := congrArg b64dec h
+  rw [b64_roundtrip, b64_roundtrip] at this
+  exact Option.some.inj this
+
+/-! ### 2. toText: what is printable and what is replaced (bounds re-read from the source on every run) -/
+
+theorem toText_byte_spec : ∀ c : UInt8, toTextByte c = textByte c :=
+  forall_u8 _ (by decide +kernel)
+
+/-- decode.go's `toText` is the specified text rendering (which is what the driver prints). -/
+theorem toText_spec (p : Bytes) : toText p = textOf p := by
+  simp [toText, textOf, toText_byte_spec]
+
+theorem toText_length (p : Bytes) : (toText p).length = p.length := by simp [toText]
+
+/-- the text fields never contain a byte JSON must escape with a non-identity meaning (`"`, control, ≥ 0x80). -/
+theorem toText_printable : ∀ c : UInt8, 0x23 ≤ (toTextByte c).toNat ∧ (toTextByte c).toNat ≤ 0x7e :=
+  forall_u8 _ (by decide +kernel)
+
+example : toText [0x00, 0x20, 0x21, 0x22, 0x23, 0x41, 0x7e, 0x7f, 0xc3, 0xa9] = ascii "....#A~..." := by decide
+
+/-! ### 3. the record kinds of the model are the ones in the source (struct tags re-read on every run) -/
+
+/-- every JSON field the consumer (`parseRecord`) reads exists under that tag in the marshalled struct of its
+    kind, and the `"type"` literals are the source's. A renamed/dropped tag makes this theorem fail. -/
+theorem record_fields_in_source :
+    (∀ f ∈ (recString 0 0 [] []).map Prod.fst, f ∈ Generated.C17.decodeFieldsString.map Prod.fst) ∧
+    (∀ f ∈ (recList 0 0 [] 0 []).map Prod.fst, f ∈ Generated.C17.decodeFieldsList.map Prod.fst) ∧
+    (∀ f ∈ (recHash 0 0 [] [] []).map Prod.fst, f ∈ Generated.C17.decodeFieldsHash.map Prod.fst) ∧
+    (∀ f ∈ (recSet 0 0 [] []).map Prod.fst, f ∈ Generated.C17.decodeFieldsSet.map Prod.fst) ∧
+    (∀ f ∈ (recZSet 0 0 [] [] 0).map Prod.fst, f ∈ Generated.C17.decodeFieldsZSet.map Prod.fst) ∧
+    (∀ f ∈ (recAux [] []).map Prod.fst, f ∈ Generated.C17.decodeFieldsAux.map Prod.fst) ∧
+    Generated.C17.decodeTypeNameString = "string" ∧ Generated.C17.decodeTypeNameList = "list" ∧
+    Generated.C17.decodeTypeNameHash = "hash" ∧ Generated.C17.decodeTypeNameSet = "set" ∧
+    Generated.C17.decodeTypeNameZSet = "zset" ∧ Generated.C17.decodeTypeNameAux = "aux" := by
+  decide
+
+/-- the score is marshalled as a JSON *number* (`float64`), which is why a non-finite one cannot be printed. -/
+theorem score_is_float64 : ("score", "float64") ∈ Generated.C17.decodeFieldsZSet := by decide
+
+/-- both channels are buffered (`base.RDBPipeSize`), as `no_deadlock` assumes. -/
+theorem pipe_capacity_positive : 0 < Generated.C17.decodePipeSize := by decide
+
+/-! ### 4. fields_recover: one line per element, attributed to its key, bytes exact -/
+
+/-- For every item without a non-finite score (and delivered by the loader as one entry), the block of lines
+    built for it reads back — db, type, expiry, key/field/member/value bytes from the `*64` fields, list index,
+    score bits — as exactly the records the property demands, in order: none missing, none extra, none
+    attributed to another key. -/
+theorem fields_recover (it : Item) (hf : it.hasNonFinite = false) :
+    ∃ rs, blockOf (entryOf it) = some rs ∧ rs.map parseRecord = (specRecords it).map some :=
+  DecodeMode.fields_recover it hf
+
+/-- the individual `*64` fields: every line of a key carries that key's name, recoverable exactly. -/
+theorem key64_recovers (k : KeyItem) (r : Record) (rs : List Record)
+    (hb : blockOf (entryOf (.key k)) = some rs) (hr : r ∈ rs) : getB64 r "key64" = some k.key := by
+  obtain ⟨db, exp, key, v⟩ := k
+  simp only [entryOf, blockOf] at hb
+  have hsub : ∀ {xs ys : List Record}, marshalAll xs = some ys → ys = xs := by
+    intro xs
+    induction xs with
+    | nil => intro ys h; simp [marshalAll] at h; exact h
+    | cons x xs ih =>
+      intro ys h
+      simp only [marshalAll] at h
+      cases hx : toJson x with
+      | none => simp [hx] at h
+      | some j =>
+        cases hm : marshalAll xs with
+        | none => simp [hx, hm] at h
+        | some js =>
+          simp [hx, hm] at h
+          have hj : j = x := by
+            unfold toJson at hx; split at hx
+            · cases hx
+            · exact (Option.some.inj hx).symm
+          rw [← h, hj, ih hm]
+  have := hsub hb; subst this
+  cases v with
+  | str v => simp [objRecords] at hr; subst hr; simp [getB64, getStr, recString, head, List.lookup, b64_roundtrip]
+  | list xs =>
+    obtain ⟨j, v, rfl⟩ := listLoop_mem hr
+    simp [getB64, getStr, recList, head, List.lookup, b64_roundtrip]
+  | hash ps =>
+    simp [objRecords] at hr; obtain ⟨f, v, _, rfl⟩ := hr
+    simp [getB64, getStr, recHash, head, List.lookup, b64_roundtrip]
+  | set ms =>
+    simp [objRecords] at hr; obtain ⟨m, _, rfl⟩ := hr
+    simp [getB64, getStr, recSet, head, List.lookup, b64_roundtrip]
+  | zset ms =>
+    simp [objRecords] at hr; obtain ⟨m, s, _, rfl⟩ := hr
+    simp [getB64, getStr, recZSet, head, List.lookup, b64_roundtrip]
+
+/-- non-vacuity: a binary key (non-UTF-8, NUL, quote) with a list; indexes count from 0. -/
+example :
+    (blockOf (entryOf (.key ⟨3, 1600000000000, [0xff, 0x00, 0x22], .list [[0x80], []]⟩))).map (·.map parseRecord)
+      = some [some (.data 3 1600000000000 [0xff, 0x00, 0x22] (.listElem 0 [0x80])),
+              some (.data 3 1600000000000 [0xff, 0x00, 0x22] (.listElem 1 []))] := by decide
+
+/-- non-vacuity: negative zero and a finite score survive as bit patterns. -/
+example :
+    (blockOf (entryOf (.key ⟨0, 0, [0x7a], .zset [([0x61], 0x8000000000000000), ([0x62], 0x3ff8000000000000)]⟩))).map
+        (·.map parseRecord)
+      = some [some (.data 0 0 [0x7a] (.zsetMember [0x61] 0x8000000000000000)),
+              some (.data 0 0 [0x7a] (.zsetMember [0x62] 0x3ff8000000000000))] := by decide
+
+/-! ### 5. the goroutine pipeline: every schedule, every degree of parallelism -/
+
+/-- the lines one entry contributes (nothing if its worker aborts the process instead). -/
+def recordsOf (e : Entry) : List Record := (blockOf e).getD []
+
+theorem flatten_filterMap_blockOf (entries : List Entry) :
+    (entries.filterMap blockOf).flatten = entries.flatMap recordsOf := by
+  induction entries with
+  | nil => rfl
+  | cons e es ih =>
+    cases h : blockOf e with
+    | none => simp [h, recordsOf, ih]
+    | some b => simp [h, recordsOf, ih]
+
+/-- **lines_complete** (full strength over entries, N, capacities, schedules). When `decode` returns, the
+    output file holds, as a multiset, exactly the lines of the entries' blocks: no omission, no duplication,
+    for every number of workers `n ≥ 1` and every interleaving. (Blocks are sent with one channel send each,
+    so the lines of one entry are also contiguous: `s.out` is a list of whole blocks.) -/
+theorem lines_complete (cfg : Cfg) (n : Nat) (entries : List Entry) (s : St Entry (List Record))
+    (hn : 0 < n) (hr : DecodeReach cfg entries n s) (he : s.ended = true) :
+    s.out.flatten.Perm (entries.flatMap recordsOf) := by
+  have := (ended_perm hn hr he).flatten
+  rwa [flatten_filterMap_blockOf] at this
+
+/-- the same, block-wise: the written blocks are a permutation of the entries' blocks (schedule-dependent
+    order across keys, never a split or merged block). -/
+theorem blocks_complete (cfg : Cfg) (n : Nat) (entries : List Entry) (s : St Entry (List Record))
+    (hn : 0 < n) (hr : DecodeReach cfg entries n s) (he : s.ended = true) :
+    s.out.Perm (entries.filterMap blockOf) := ended_perm hn hr he
+
+/-- conservation in EVERY reachable state (not only at the end): each block is in exactly one place —
+    written, in `opipe`, held by a worker, or still to be built from an entry in `ipipe`/the file. -/
+theorem nothing_lost_in_flight (cfg : Cfg) (n : Nat) (entries : List Entry) (s : St Entry (List Record))
+    (hr : DecodeReach cfg entries n s) (hna : s.aborted = false) :
+    (s.out ++ s.opipe ++ held s.ws ++ (s.ipipe ++ s.src).filterMap blockOf).Perm (entries.filterMap blockOf) :=
+  reach_conserved_perm hr hna
+
+theorem items_block_flatten (items : List Item) (hf : ∀ it ∈ items, it.hasNonFinite = false) :
+    (((items.map entryOf).filterMap blockOf).flatten).map parseRecord = (items.flatMap specRecords).map some := by
+  induction items with
+  | nil => rfl
+  | cons it items ih =>
+    obtain ⟨rs, h1, h2⟩ := fields_recover it (hf it (by simp))
+    have := ih (fun x hx => hf x (by simp [hx]))
+    simp only [List.map_cons, List.filterMap_cons, h1, List.flatten_cons, List.map_append, h2, this,
+      List.flatMap_cons]
+
+/- FULL statement of the property (false of the code, see the counterexamples below):
+   theorem decode_complete (cfg n) (items : List Item) (s) (hn : 0 < n)
+       (hr : DecodeReach cfg (loaderEntries items) n s) (hstuck : ∀ s', ¬ Step cfg blockOf s s') :
+       s.ended = true ∧ (s.out.flatten.map parseRecord).Perm ((items.flatMap specRecords).map some)
+   for ALL items (scores incl. ±Inf/NaN, hashes of any size). -/
+
+/-- **decode_complete_partial**: for every file whose sorted-set scores are all finite and whose keys are each
+    delivered as one entry (no hash above the 16 MiB chunk limit), every number of workers and every schedule:
+    when `decode` returns, the records read back from the output file are, as a multiset, exactly the records
+    the property demands — one per string / list element with index / hash field / set member / zset member /
+    Lua script, each with its own db, expiry and key. -/
+theorem decode_complete_partial (cfg : Cfg) (n : Nat) (items : List Item) (s : St Entry (List Record))
+    (hn : 0 < n) (hf : ∀ it ∈ items, it.hasNonFinite = false)
+    (hr : DecodeReach cfg (items.map entryOf) n s) (he : s.ended = true) :
+    (s.out.flatten.map parseRecord).Perm ((items.flatMap specRecords).map some) := by
+  have := ((ended_perm hn hr he).flatten).map parseRecord
+  rwa [items_block_flatten items hf] at this
+
+/-- under the same hypotheses the process never aborts. -/
+theorem never_aborts_partial (cfg : Cfg) (n : Nat) (items : List Item) (s : St Entry (List Record))
+    (hf : ∀ it ∈ items, it.hasNonFinite = false)
+    (hr : DecodeReach cfg (items.map entryOf) n s) : s.aborted = false := by
+  apply clean_never_aborts (block := blockOf) (entries := items.map entryOf) _ hr
+  intro e he
+  obtain ⟨it, hit, rfl⟩ := List.mem_map.mp he
+  obtain ⟨rs, h, _⟩ := fields_recover it (hf it hit)
+  simp [h]
+
+/-! ### 6. ends: the output closes after the last entry has been emitted -/
+
+/-- **ends**. `decode` returns (`wait` closed) only when the loader has delivered the whole file and closed
+    `ipipe`, `ipipe` is drained, ALL workers have returned, `opipe` was closed after that and is drained:
+    nothing is left anywhere but in the output file. -/
+theorem ends (cfg : Cfg) (n : Nat) (entries : List Entry) (s : St Entry (List Record))
+    (hn : 0 < n) (hr : DecodeReach cfg entries n s) (he : s.ended = true) :
+    s.src = [] ∧ s.ipipe = [] ∧ allDone s.ws ∧ s.opipe = [] ∧ s.inClosed = true ∧ s.outClosed = true ∧
+    s.aborted = false := ended_all hn hr he
+
+/-- … and then nothing moves any more (no line can be written after `decode` returned). -/
+theorem ended_is_final (cfg : Cfg) (n : Nat) (entries : List Entry) (s s' : St Entry (List Record))
+    (hn : 0 < n) (hr : DecodeReach cfg entries n s) (he : s.ended = true) : ¬ Step cfg blockOf s s' :=
+  ended_final hn hr he
+
+/-- no deadlock: while `decode` has neither returned nor aborted, some goroutine can take a step
+    (n ≥ 1 workers, buffered channels). -/
+theorem no_deadlock (cfg : Cfg) (n : Nat) (entries : List Entry) (s : St Entry (List Record))
+    (hn : 0 < n) (hci : 0 < cfg.capIn) (hco : 0 < cfg.capOut)
+    (hr : DecodeReach cfg entries n s) (hne : s.ended = false) (hna : s.aborted = false) :
+    ∃ s', Step cfg blockOf s s' := progress hn hci hco hr hne hna
+
+/-- every schedule is finite: a run has at most `measure s` steps (4 per entry + 1 per worker + 3). -/
+theorem terminates (cfg : Cfg) (s u : St Entry (List Record)) (k : Nat)
+    (h : Run cfg blockOf s k u) : k ≤ Pipe.measure s := by
+  have := run_bounded h; omega
+
+/-- **the run ends when the file is exhausted, with everything printed**: a state from which no goroutine
+    can move (the end of a maximal run — and all runs are finite) is the state "decode returned", and the
+    output is complete. -/
+theorem maximal_run_complete_partial (cfg : Cfg) (n : Nat) (items : List Item) (s : St Entry (List Record))
+    (hn : 0 < n) (hci : 0 < cfg.capIn) (hco : 0 < cfg.capOut)
+    (hf : ∀ it ∈ items, it.hasNonFinite = false)
+    (hr : DecodeReach cfg (items.map entryOf) n s) (hstuck : ∀ s', ¬ Step cfg blockOf s s') :
+    s.ended = true ∧ (s.out.flatten.map parseRecord).Perm ((items.flatMap specRecords).map some) := by
+  have hna := never_aborts_partial cfg n items s hf hr
+  have he : s.ended = true := by
+    cases h : s.ended with
+    | true => rfl
+    | false =>
+      obtain ⟨s', hs⟩ := progress hn hci hco hr h hna
+      exact absurd hs (hstuck s')
+  exact ⟨he, decode_complete_partial cfg n items s hn hf hr he⟩
+
+/-- non-vacuity of the pipeline theorems: a concrete complete run with 2 workers and 2 entries in which the
+    SECOND entry's block is written first (the order across keys is schedule dependent). -/
+example : ∃ s : St Nat Nat, Reach ⟨1, 1⟩ (fun e => some (e + 10)) [1, 2] 2 s ∧ s.ended = true ∧ s.out = [12, 11] := by
+  let blk : Nat → Option Nat := fun e => some (e + 10)
+  let c : Cfg := ⟨1, 1⟩
+  let mk (src : List Nat) (ic : Bool) (ip : List Nat) (ws : List (W Nat)) (op : List Nat) (oc : Bool)
+      (out : List Nat) (en : Bool) : St Nat Nat := ⟨src, ic, ip, ws, op, oc, out, en, false⟩
+  have r0 : Reach c blk [1, 2] 2 (mk [1, 2] false [] [.idle, .idle] [] false [] false) := Reach.start
+  have r1 := Reach.step r0 ⟨rfl, Move.load _ 1 [2] rfl (by decide)⟩
+  have r2 := Reach.step r1 ⟨rfl, Move.take _ [] [.idle] 1 [] 11 rfl rfl rfl⟩
+  have r3 := Reach.step r2 ⟨rfl, Move.load _ 2 [] rfl (by decide)⟩
+  have r4 := Reach.step r3 ⟨rfl, Move.take _ [.holding 11] [] 2 [] 12 rfl rfl rfl⟩
+  have r5 := Reach.step r4 ⟨rfl, Move.emit _ [.holding 11] [] 12 rfl (by decide)⟩
+  have r6 := Reach.step r5 ⟨rfl, Move.write _ 12 [] rfl⟩
+  have r7 := Reach.step r6 ⟨rfl, Move.emit _ [] [.idle] 11 rfl (by decide)⟩
+  have r8 := Reach.step r7 ⟨rfl, Move.write _ 11 [] rfl⟩
+  have r9 := Reach.step r8 ⟨rfl, Move.closeIn _ rfl rfl⟩
+  have r10 := Reach.step r9 ⟨rfl, Move.finish _ [] [.idle] rfl rfl rfl⟩
+  have r11 := Reach.step r10 ⟨rfl, Move.finish _ [.done] [] rfl rfl rfl⟩
+  have r12 := Reach.step r11 ⟨rfl, Move.closeOut _ (by intro w hw; simp at hw; rcases hw with rfl | rfl <;> rfl) rfl⟩
+  have r13 := Reach.step r12 ⟨rfl, Move.finishOut _ rfl rfl rfl⟩
+  exact ⟨_, r13, rfl, rfl⟩
+
+/-! ### 7. D19: what the code does on the excluded inputs -/
+
+/-- a non-finite score makes the worker abort instead of producing the block. -/
+theorem nonfinite_aborts (it : Item) (hf : it.hasNonFinite = true) : blockOf (entryOf it) = none :=
+  DecodeMode.nonfinite_aborts it hf
+
+/-- an entry whose block cannot be built anywhere in the file ⇒ under NO schedule does `decode` return
+    normally (the process exits in a worker; lines not yet written are lost). -/
+theorem doomed_never_ends (cfg : Cfg) (n : Nat) (entries : List Entry) (s : St Entry (List Record))
+    (hn : 0 < n) (hbad : ∃ e, e ∈ entries ∧ blockOf e = none)
+    (hr : DecodeReach cfg entries n s) : s.ended = false := Pipe.doomed_never_ends hn hbad hr
+
+/-- the witness file: key "a" = "x", then a sorted set with one member of score +Inf. -/
+def infWitness : List Item :=
+  [.key ⟨0, 0, [0x61], .str [0x78]⟩, .key ⟨0, 0, [0x7a], .zset [([0x6d], 0x7ff0000000000000)]⟩]
+
+/-- **counterexample (sig=score-nonfinite)**: the property demands two records for `infWitness`, but with the
+    code as it stands no schedule of any number of workers ever completes the run; with one worker the run
+    that loads, decodes and writes in file order ends in the abort with only the first line written. -/
+theorem counterexample_score_nonfinite :
+    (infWitness.flatMap specRecords).length = 2 ∧
+    (∀ cfg n s, 0 < n → DecodeReach cfg (infWitness.map entryOf) n s → s.ended = false) ∧
+    (∃ s, DecodeReach ⟨1024, 1024⟩ (infWitness.map entryOf) 1 s ∧ s.aborted = true ∧ s.out.flatten.length = 1) := by
+  refine ⟨by decide, ?_, ?_⟩
+  · intro cfg n s hn hr
+    exact doomed_never_ends cfg n _ s hn ⟨entryOf (.key ⟨0, 0, [0x7a], .zset [([0x6d], 0x7ff0000000000000)]⟩),
+      by simp [infWitness], by decide⟩ hr
+  · let e1 := entryOf (.key ⟨0, 0, [0x61], .str [0x78]⟩)
+    let e2 := entryOf (.key ⟨0, 0, [0x7a], .zset [([0x6d], 0x7ff0000000000000)]⟩)
+    let c : Cfg := ⟨1024, 1024⟩
+    have r0 : DecodeReach c [e1, e2] 1 _ := Reach.start
+    have r1 := Reach.step r0 ⟨rfl, Move.load _ e1 [e2] rfl (by decide)⟩
+    have r2 := Reach.step r1 ⟨rfl, Move.take _ [] [] e1 [] [recString 0 0 [0x61] [0x78]] rfl rfl (by decide)⟩
+    have r3 := Reach.step r2 ⟨rfl, Move.emit _ [] [] _ rfl (by decide)⟩
+    have r4 := Reach.step r3 ⟨rfl, Move.write _ _ [] rfl⟩
+    have r5 := Reach.step r4 ⟨rfl, Move.load _ e2 [] rfl (by decide)⟩
+    have r6 := Reach.step r5 ⟨rfl, Move.takeAbort _ [] [] e2 [] rfl rfl (by decide)⟩
+    exact ⟨_, r6, rfl, rfl⟩
+
+/-- NaN and -Inf likewise. -/
+theorem counterexample_score_nan_neginf :
+    blockOf (entryOf (.key ⟨0, 0, [0x7a], .zset [([0x6d], 0x7ff8000000000001)]⟩)) = none ∧
+    blockOf (entryOf (.key ⟨0, 0, [0x7a], .zset [([0x6d], 0xfff0000000000000)]⟩)) = none := by decide
+
+/-- What the loader delivers for a hash above the chunk limit: chunk entries of the same key whose
+    `DecodeDump` outcome is `o₁, o₂, …` (D19: in general an error; C01 models the split, C12 the decoder). -/
+def chunkEntries (db exp : Nat) (key : Bytes) (outcomes : List (Option Value)) : List Entry :=
+  match outcomes with
+  | [] => []
+  | o :: rest => .obj db exp key o :: rest.map (fun o' => .obj db 0 key o')
+
+/-- **counterexample (sig=chunked-hash), abort form**: as soon as the `DecodeDump` of one chunk fails — which is
+    what the real code does on the first chunk (count of the whole hash, only part of the pairs) — no schedule
+    completes the run, although the property demands one record per field. -/
+theorem counterexample_chunked_hash (cfg : Cfg) (n : Nat) (s : St Entry (List Record)) (hn : 0 < n)
+    (f1 v1 f2 v2 : Bytes)
+    (hr : DecodeReach cfg (chunkEntries 0 0 [0x68] [none, none]) n s) :
+    s.ended = false ∧ (specRecords (.key ⟨0, 0, [0x68], .hash [(f1, v1), (f2, v2)]⟩)).length = 2 := by
+  refine ⟨doomed_never_ends cfg n _ s hn ⟨.obj 0 0 [0x68] none, by simp [chunkEntries], rfl⟩ hr, by simp [specRecords, elemsOf]⟩
+
+/-- **counterexample (sig=chunked-hash), byte level** — C01's model of the loader composed with C12's model of
+    `rdb.DecodeDump`, on the concrete file `chunkWitnessFile` (a plain hash with three 40-byte values):
+    with the real 16 MiB limit it is one entry that decodes to the item (and `decode_complete_partial` applies);
+    with a 64-byte limit (the scaled build that replays this very file) the loader delivers two chunk entries,
+    `DecodeDump` fails on BOTH, and no schedule of any number of workers completes the run, although the property
+    demands three records. The theorems are about the limit as a parameter; 16 MiB is `Generated`'s business in C01. -/
+theorem counterexample_chunked_hash_bytes :
+    loaderEntries (fun _ => none) 16777216 chunkWitnessFile = [entryOf chunkWitnessItem] ∧
+    loaderEntries (fun _ => none) 64 chunkWitnessFile = [.obj 0 0 [0x68] none, .obj 0 0 [0x68] none] ∧
+    (specRecords chunkWitnessItem).length = 3 ∧
+    (∀ cfg n s, 0 < n → DecodeReach cfg (loaderEntries (fun _ => none) 64 chunkWitnessFile) n s → s.ended = false) := by
+  have h1 : loaderEntries (fun _ => none) 16777216 chunkWitnessFile = [entryOf chunkWitnessItem] := by decide +kernel
+  have h2 : loaderEntries (fun _ => none) 64 chunkWitnessFile = [.obj 0 0 [0x68] none, .obj 0 0 [0x68] none] := by
+    decide +kernel
+  refine ⟨h1, h2, by decide, ?_⟩
+  intro cfg n s hn hr
+  rw [h2] at hr
+  exact doomed_never_ends cfg n _ s hn ⟨.obj 0 0 [0x68] none, by simp, rfl⟩ hr
+
+/-- the witness file is a well-formed RDB: header, one key, EOF, correct CRC-64, nothing unread. -/
+theorem chunkWitnessFile_wellformed :
+    (Rdb.run (fun _ => false) true 16777216 Generated.rdbFromVersion chunkWitnessFile).2 = .ok [] := by
+  decide +kernel
+
+/-- **counterexample (sig=chunked-hash), silent form** (hypothetical outcomes; on the real code the FIRST chunk
+    already aborts in practice): a continuation chunk has no count, so `DecodeDump` takes the length byte of its
+    first field for the count; if that field is empty the chunk "decodes" to an empty hash. Were the first chunk
+    readable, the run would END with the continuation's fields silently missing. -/
+theorem counterexample_chunked_hash_silent :
+    ∃ s, DecodeReach ⟨1024, 1024⟩ (chunkEntries 0 0 [0x68] [some (.hash [([0x66], [0x76])]), some (.hash [])]) 1 s ∧
+      s.ended = true ∧ s.out.flatten.length = 1 ∧
+      (specRecords (.key ⟨0, 0, [0x68], .hash [([0x66], [0x76]), ([], [0x77])]⟩)).length = 2 := by
+  let e1 : Entry := .obj 0 0 [0x68] (some (.hash [([0x66], [0x76])]))
+  let e2 : Entry := .obj 0 0 [0x68] (some (.hash []))
+  let c : Cfg := ⟨1024, 1024⟩
+  have r0 : DecodeReach c [e1, e2] 1 _ := Reach.start
+  have r1 := Reach.step r0 ⟨rfl, Move.load _ e1 [e2] rfl (by decide)⟩
+  have r2 := Reach.step r1 ⟨rfl, Move.take _ [] [] e1 [] [recHash 0 0 [0x68] [0x66] [0x76]] rfl rfl (by decide)⟩
+  have r3 := Reach.step r2 ⟨rfl, Move.emit _ [] [] _ rfl (by decide)⟩
+  have r4 := Reach.step r3 ⟨rfl, Move.write _ _ [] rfl⟩
+  have r5 := Reach.step r4 ⟨rfl, Move.load _ e2 [] rfl (by decide)⟩
+  have r6 := Reach.step r5 ⟨rfl, Move.take _ [] [] e2 [] [] rfl rfl (by decide)⟩
+  have r7 := Reach.step r6 ⟨rfl, Move.emit _ [] [] _ rfl (by decide)⟩
+  have r8 := Reach.step r7 ⟨rfl, Move.write _ _ [] rfl⟩
+  have r9 := Reach.step r8 ⟨rfl, Move.closeIn _ rfl rfl⟩
+  have r10 := Reach.step r9 ⟨rfl, Move.finish _ [] [] rfl rfl rfl⟩
+  have r11 := Reach.step r10 ⟨rfl, Move.closeOut _ (by intro w hw; simp at hw; exact hw) rfl⟩
+  have r12 := Reach.step r11 ⟨rfl, Move.finishOut _ rfl rfl rfl⟩
+  exact ⟨_, r12, rfl, rfl, by simp [specRecords, elemsOf]⟩
+
+/-- `parallel = 0` is outside the property (`parallel = 1..N`) and indeed degenerate: with no worker the closer
+    closes `opipe` at once and `decode` returns with an empty output whatever the file holds. -/
+theorem zero_workers_prints_nothing (entries : List Entry) :
+    ∃ s, DecodeReach ⟨1024, 1024⟩ entries 0 s ∧ s.ended = true ∧ s.out = [] := by
+  have r0 : DecodeReach ⟨1024, 1024⟩ entries 0 _ := Reach.start
+  have r1 := Reach.step r0 ⟨rfl, Move.closeOut _ (by intro w hw; simp [Pipe.init] at hw) rfl⟩
+  have r2 := Reach.step r1 ⟨rfl, Move.finishOut _ rfl rfl rfl⟩
+  exact ⟨_, r2, rfl, rfl⟩
+
 end RSVerif.Properties.C17
